@@ -1017,9 +1017,17 @@ class Gen:
         cl = count_clauses(contract)
         for k in cl:
             item.clauses[k] += cl[k]
-        body = s.text[bs:be]
+        o_idx = bs - (2 if fallible else 1)
+        whole = splice_loops(s, o_idx, be, extra.get("loops"), item, extra.get("places"))
+        body = whole[(2 if fallible else 1):-1]
         body = apply_replacements(body, extra.get("repls", []), item)
         body = apply_befores(body, extra.get("befores", []), item)
+        for bind, ty in extra.get("annotates", []):
+            pat = re.compile(re.escape(bind) + r"\s*=")
+            ms = list(pat.finditer(body))
+            if len(ms) != 1:
+                raise AnchorLost("%s: binding %r found %d times" % (item.ident, bind, len(ms)))
+            body = body[:ms[0].start()] + bind + ": " + ty + " =" + body[ms[0].end():]
         self.emit("// ---- peg action %s alt %d from %s:%d" % (rule, alt, rel, s.line_of(bs)))
         sig = "pub fn %s(%s) -> (%s: %s)" % (fname, params, kv.get("retname", "r"), ret)
         c = self.vac(contract, pid_)
